@@ -248,6 +248,13 @@ fn gen_chain(rng: &mut Rng, dt: &DType, cs: Option<&[u64]>, depth: u32, allow_sh
     let mut squeezed = false;
     // array -> array
     let mut cs_cur: Option<Vec<u64>> = cs.map(|c| c.to_vec());
+    // a VALUE-mapping array->array codec that is lossless here: fixedscaleoffset on int32 with scale 1 and offset 1
+    // (exact in the codec's float64 arithmetic; only i32::MIN would saturate, which the generators do not produce):
+    // the encoded fill value differs from the fill value
+    if depth == 0 && dt.name == "int32" && rng.chance(1, 8) {
+        json.push("{\"name\":\"numcodecs.fixedscaleoffset\",\"configuration\":{\"offset\":1,\"scale\":1,\"dtype\":\"<i4\",\"astype\":\"<i4\"}}".into());
+        desc.push("fso1".into());
+    }
     if let Some(r) = rank {
         if r >= 1 && rng.chance(1, 3) {
             let mut perm: Vec<usize> = (0..r).collect();
